@@ -441,6 +441,32 @@ def fullprod_rule(chk, db):
                           {"where": astx.loc(f)})
         elif ok is None:
             chk.unknown_instance("SIZESRC", label, "neither an extents product nor a container size recognised")
+    # EMPTYANY: a multidimensional view is empty when *any* extent is zero (the product of the extents is zero)
+    for f in db.funcs:
+        if f.get("body") is None or f["n"] != "empty" or f.get("record") not in ("etl::mdarray", "etl::mdspan") or f["params"]:
+            continue
+        label = "%s :: quantifier over the extents" % astx.sig(f)
+        chk.instance("EMPTYANY")
+        verdict = None
+        node = None
+        for x in astx.all_exprs(f, into_lambdas=True):
+            if x.get("k") == "fold" and any(y.get("k") == "call" and astx.callee(y)[0] in ("extent", "static_extent")
+                                            for y in astx.walk_expr(x)):
+                node = x
+                verdict = x.get("op") in ("||", "or")
+            if x.get("k") == "call" and astx.callee(x)[0] in ("all_of", "none_of") and "extent" in astx.show(x, 200):
+                node, verdict = x, False
+            if x.get("k") == "call" and astx.callee(x)[0] == "any_of" and "extent" in astx.show(x, 200):
+                node, verdict = x, True
+        if verdict is None:
+            if any(x.get("k") == "call" and astx.callee(x)[0] in ("size", "required_span_size") for x in astx.all_exprs(f)):
+                verdict = True
+        chk.obligation("EMPTYANY", label, verdict)
+        if verdict is False:
+            chk.violation("EMPTYANY", label, "all-instead-of-any", "%s: `%s` calls the view empty only when *every* extent is zero; a "
+                          "single zero extent already makes size() zero" % (astx.loc(f, node), astx.show(node, 70)), {"where": astx.loc(f)})
+        elif verdict is None:
+            chk.unknown_instance("EMPTYANY", label, "neither size() == 0 nor a quantifier over the extents recognised")
     if n < 2:
         chk.analysis_broken("FULLPROD: only %d total-size products found in mdspan / mdarray / layout mappings (floor 2)" % n)
 
@@ -785,7 +811,7 @@ META = (META[0] + ' FULLPROD (total sizes multiply all rank() extents).', META[1
 META = (META[0] + ' PRODLOOP (accumulated extents are indexed by the loop counter).', META[1])
 META = (META[0] + ' TRANSP-CALL; polynomial unrolling of loop-shaped layout mappings (ranks 1-4).', META[1])
 
-META = (META[0] + ' SIZESRC (size() of mdarray / mdspan is computed from the extents, never from the container or data handle).', META[1])
+META = (META[0] + ' SIZESRC (size() of mdarray / mdspan is computed from the extents, never from the container or data handle); EMPTYANY (empty() of mdspan / mdarray is `size() == 0` or an existential over the extents).', META[1])
 
 
 def run(chk, tier):
